@@ -291,6 +291,9 @@ PROPS["C12"] = {
                   {"name": "TestC12BigSpace", "variant": "big%d" % i, "quick": {"checks": 1, "env": {"C12_BIG": i}}, "thorough": {"checks": 1, "env": {"C12_BIG": i}}}
                   for i in range(4)],
     }, {
+        "pkg": "pkg/packet",
+        "tests": [T("TestC12Sender", {"checks": 400, "shards": 2}, {"checks": 6000, "shards": 8})],
+    }, {
         "pkg": "command",
         "tests": [T("TestC12Netns", {"checks": 8, "shards": 8}, {"checks": 150, "shards": 12})],
     }, {
